@@ -11,6 +11,15 @@ def run(P, R, L):
     K.role3_levels(P, R, L)
     R.clause("PAIR-3", "file bounds are captured from the entries actually added to the table (flush and compaction)")
     K.pair3(P, R, L)
+    R.clause("ERR-1", "errors while building / closing / installing table files are never dropped (a half-written file must not be listed in the layout)")
+    from . import c08
+    n = c08.err1_subset(P, R, L, ["compaction::worker::", "compaction::state::", "db::DB::build_table_from_iterator", "db::DB::convert_memtable_to_file",
+                                  "tables::table_builder::", "versioning::version_set::VersionSet::log_and_apply"])
+    R.floor("ERR-1", "Result sites in the table-building and installing functions", n, 40)
+    R.clause("ORD-3", "compaction results are installed only without a recorded error")
+    K.ord3_tables(P, R, L)
+    R.clause("GRD-4", "nothing is garbage-collected under the sticky error (files the manifest lists must survive a failed install)")
+    c08.grd4(P, R, L)
     R.clause("OWN-8", "file numbers are unique: who writes the counter, and in which direction")
     K.own8_file_numbers(P, R, L)
     R.not_decided += ["disjointness / sortedness of a level for a concrete history (runtime assertion in VersionBuilder::maybe_add_file)",
